@@ -91,7 +91,7 @@ def build(cell, now):
         kw['mutate_final'] = lambda x: x.replace('IssueInstant="%s"' % forge.ts(now), 'IssueInstant="%s"' % forge.ts(now + 1), 1)
     elif cor == 'resp-sigvalue':
         # the response signature is the first SignatureValue in document order (it precedes the assertion)
-        kw['mutate_final'] = flip_sigvalue(0)
+        kw["mutate_final"] = flip_sigvalue(0)
     return forge.build(now, **kw)
 
 
